@@ -670,6 +670,11 @@ def check_routes(ctx, prop):
             idx['DEXPR'] = b.add('DEXPR %d %s' % (v, sx.to_sx(e)))
         if prop == 'C03' and len(sx.var_ids(e)) <= 1 and p:
             idx['DERIVNUM'] = b.add('DERIVNUM %s %s' % (sx.num_sx(p[0][1]), sx.to_sx(e)))
+        if prop in ('C06', 'C07', 'C17') and len(sx.var_ids(e)) <= 1:
+            # Derivative(e, compute_early=True).at(number): the bare-number form of the early route
+            vals = [p[0][1]] if p else []
+            vals += [rng.choice([-1, 0, -2.5, 2, 0.5, -0.0])]
+            idx['DEARLYNUM'] = [b.add('DEARLYNUM %s %s' % (sx.num_sx(xv), sx.to_sx(e))) for xv in vals]
         bundles.append((e, p, v, idx))
     b.run()
     kinds = collections.Counter()
@@ -688,6 +693,10 @@ def check_routes(ctx, prop):
         if prop in ('C04', 'C06'):
             for w, j in idx['FWDALL'].items():
                 rep.corr(b, j, 'FWD')
+        for j in idx.get('DEARLYNUM', []):
+            ok_ = rep.corr(b, j, 'DEARLYNUM')
+            if not ok_ and b.status[j] == 'disagree':
+                label_numeric_disagreement(rep, b, j)
         ev = core.parse_outcome(b.impl[idx['EVAL']])
         kinds[ev[0]] += 1
         if sx.size(e) >= 2:
@@ -983,7 +992,7 @@ def check_C05(ctx):
             if r in idx:
                 ok = rep.corr(b, idx[r], r)
                 o_ = core.parse_outcome(b.impl[idx[r]]) if b.impl[idx[r]].startswith(('PYERR', 'ERROR')) else None
-                if not ok and b.status[idx[r]] == 'disagree' and (b.impl[idx[r]].startswith(('PYERR', 'ERROR runner'))
+                if not ok and b.status[idx[r]] in ('disagree', 'error') and (b.impl[idx[r]].startswith(('PYERR', 'ERROR runner'))
                                                                    and 'Overflow' not in b.impl[idx[r]]):
                     rep.oracle_fail('%s with n written as an integral float: no derivative expression is produced (%s) although '
                                     'the parameter is documented as accepted' % (r[2:], b.impl[idx[r]][:80]), b, [idx[r]])
